@@ -17,10 +17,113 @@
 package main
 
 import (
+	"bytes"
+	"context"
+	"encoding/json"
 	"flag"
+	"fmt"
+	"math/rand"
+	"os"
+	"os/exec"
+	"path/filepath"
+	"strings"
+	"time"
 
 	"github.com/tetratelabs/wazero/verifharness/hx"
 )
+
+var (
+	e2eChild = flag.Bool("e2e-child", false, "internal: run only the end-to-end part and write its partial report to -e2e-out")
+	e2eOut   = flag.String("e2e-out", "", "internal: partial report path of the end-to-end child")
+)
+
+// partial is what the end-to-end child hands back to the parent.
+type partial struct {
+	Distinct    map[string]int `json:"distinct"`
+	Evaluations int            `json:"evaluations"`
+	Hist        map[string]int `json:"hist"`
+	Violations  []hx.Violation `json:"violations"`
+	Notes       []string       `json:"notes"`
+	Samples     []any          `json:"samples"`
+	OracleOps   int            `json:"oracle_ops"`
+}
+
+// runE2EInChild runs the end-to-end part (which executes freshly generated machine code) in a child
+// process, so that a crash of the code under test becomes a reported violation instead of a harness fault.
+func runE2EInChild() {
+	dir := *hx.Work
+	if dir == "" {
+		dir = os.TempDir()
+	}
+	out := filepath.Join(dir, fmt.Sprintf("hc08-e2e-%d.json", os.Getpid()))
+	defer os.Remove(out)
+	ctx, cancel := context.WithTimeout(context.Background(), 25*time.Minute)
+	defer cancel()
+	cmd := exec.CommandContext(ctx, os.Args[0], "-e2e-child", "-e2e-out", out, "-oracle", *hx.OraclePath,
+		"-tier", *hx.Tier, "-seed", fmt.Sprint(*hx.Seed))
+	cmd.Env = append(os.Environ(), "GOMEMLIMIT=3GiB")
+	var stderr bytes.Buffer
+	cmd.Stderr = &stderr
+	cmd.Stdout = &stderr
+	err := cmd.Run()
+	tail := stderr.String()
+	if len(tail) > 3000 {
+		tail = tail[:1500] + "\n...\n" + tail[len(tail)-1500:]
+	}
+	if err != nil {
+		if strings.Contains(tail, "HARNESS-FAULT") || ctx.Err() != nil {
+			hx.Fatal("end-to-end child failed: %v\n%s", err, tail)
+		}
+		rep.Case("e2e/child-crashed")
+		rep.Violate(hx.Violation{Kind: "impl-violation", Signature: "C08:e2e-process-crashed",
+			What:  "the process running the end-to-end boundary cases crashed (" + err.Error() + "): " + firstLines(tail, 6),
+			Input: map[string]any{"seed": *hx.Seed, "tier": *hx.Tier}, Actual: tail})
+		return
+	}
+	raw, err := os.ReadFile(out)
+	if err != nil {
+		hx.Fatal("end-to-end child wrote no report: %v", err)
+	}
+	var p partial
+	if err := json.Unmarshal(raw, &p); err != nil {
+		hx.Fatal("end-to-end child report: %v", err)
+	}
+	n := 0
+	for k, c := range p.Distinct {
+		for i := 0; i < c; i++ {
+			rep.Case(k)
+		}
+		n += c
+	}
+	for ; n < p.Evaluations; n++ {
+		rep.Case("")
+	}
+	for _, v := range p.Violations {
+		rep.Violate(v)
+	}
+	for k, c := range p.Hist {
+		if strings.HasPrefix(k, "violation:") {
+			rep.Hist[k] = c
+		} else {
+			rep.Hist[k] += c
+		}
+	}
+	for _, s := range p.Samples {
+		rep.Sample(s)
+	}
+	for _, s := range p.Notes {
+		rep.Note("%s", s)
+	}
+	orc.N += p.OracleOps
+}
+
+func firstLines(s string, n int) string {
+	l := strings.Split(strings.TrimSpace(s), "\n")
+	if len(l) > n {
+		l = l[:n]
+	}
+	return strings.Join(l, " | ")
+}
 
 var (
 	orc *hx.Oracle
@@ -32,6 +135,19 @@ func main() {
 	orc = hx.StartOracle()
 	defer orc.Close()
 	rep = hx.NewReport("C08", "one case = one (api codec, value) | (callGoFunc direction, Go kind, slot/value) | (architecture, parameter type list, result type list) for FunctionABI.Init | (definition style, signature, parameter values, result values) end to end, each run on both engines through 14 calls (Call and CallWithStack x {guest->host, host->guest callback, guest constants, comparisons computed in wasm}); distinct = distinct key; the empty signature is the only trivial case")
+	if *e2eChild {
+		runE2E(rand.New(rand.NewSource(*hx.Seed + 7919)))
+		p := partial{Distinct: rep.Distinct, Evaluations: rep.Evaluations, Hist: rep.Hist, Violations: rep.Violations,
+			Notes: rep.Notes, Samples: rep.Samples, OracleOps: orc.N}
+		b, err := json.Marshal(p)
+		if err != nil {
+			hx.Fatal("partial report: %v", err)
+		}
+		if err := os.WriteFile(*e2eOut, b, 0o644); err != nil {
+			hx.Fatal("partial report: %v", err)
+		}
+		return
+	}
 	r := hx.Rand()
 	variant := detectVariant()
 	rep.Note("model variant exhibited by the tree (int32ResultZeroExt, f32ParamExact, f32ResultExact) = %s (000 = pinned tree, 111 = F5 and F6 repaired)", variant)
@@ -40,6 +156,6 @@ func main() {
 	runViaF64(r)
 	runCallGoFunc(r, variant)
 	runABI(r)
-	runE2E(r)
+	runE2EInChild()
 	rep.Write(orc)
 }
